@@ -38,7 +38,7 @@ def main():
             meta = json.load(open("%s/_seed/meta%s.json" % (wt, n)))
         except Exception:
             pass
-        rec = {"property": prop, "mutant": int(n) + int(os.environ.get("SEED_OFFSET", "0")), "round": 1 + int(os.environ.get("SEED_OFFSET", "0")) // 2, "what": meta.get("what"), "needs": meta.get("needs"), "files": meta.get("files"), "ran": {}}
+        rec = {"property": prop, "mutant": int(n) + int(os.environ.get("SEED_OFFSET", "0")), "round": int(os.environ.get("SEED_ROUND", 1 + int(os.environ.get("SEED_OFFSET", "0")) // 2)), "what": meta.get("what"), "needs": meta.get("needs"), "files": meta.get("files"), "ran": {}}
         sh("git checkout -- pymodbus", cwd=wt)
         rc0, _ = sh("PYTHONPATH=%s timeout 300 /venv/bin/python %s" % (wt, demo), cwd=wt)
         rca, out = sh("git apply %s" % patch, cwd=wt)
